@@ -29,7 +29,37 @@ def crc32c(data: bytes, order='little') -> bytes:
     return (crc ^ 0xFFFFFFFF).to_bytes(4, order)
 
 
+# Table forms DERIVED from the bitwise step functions above (one table entry = the step applied to one byte); used only for long
+# inputs, where a bit-at-a-time loop in Python is too slow; the self-test ties them to the bitwise definitions.
+_T16 = [crc16_step(0, b) for b in range(256)]
+_T32 = [crc32c_step(b, 0) for b in range(256)]
+
+
+def crc16_fast(data: bytes) -> bytes:
+    crc = 0
+    t = _T16
+    for b in data:
+        crc = ((crc << 8) & 0xFFFF) ^ t[(crc >> 8) ^ b]
+    return crc.to_bytes(2, 'big')
+
+
+def crc32c_fast(data: bytes, order='little') -> bytes:
+    crc = 0xFFFFFFFF
+    t = _T32
+    for b in data:
+        crc = (crc >> 8) ^ t[(crc ^ b) & 0xFF]
+    return (crc ^ 0xFFFFFFFF).to_bytes(4, order)
+
+
 def selftest():
+    import hashlib
+    for n in list(range(0, 70)) + [255, 256, 257, 1000, 4099]:
+        d = (hashlib.sha256(str(n).encode()).digest() * (n // 32 + 1))[:n]
+        assert crc16_fast(d) == crc16(d) and crc32c_fast(d) == crc32c(d) and crc32c_fast(d, 'big') == crc32c(d, 'big'), n
+    for a in range(256):
+        for b in (0, 1, 0x80, 0xff):
+            d = bytes([a, b, a ^ 0x5a])
+            assert crc16_fast(d) == crc16(d) and crc32c_fast(d) == crc32c(d)
     assert crc16(b'123456789') == bytes.fromhex('31c3')
     assert crc32c(b'123456789', 'big') == bytes.fromhex('e3069283')
     assert crc32c(b'123456789', 'little') == bytes.fromhex('e3069283')[::-1]
